@@ -4,6 +4,7 @@ import Proofs.C19Time
 import Proofs.C19Decode
 import Proofs.C19Gen
 import Proofs.C19Order
+import Proofs.C19Conc
 /-!
 # C19 — UUIDs parse, print and carry time faithfully; generated time-UUIDs are unique (property theorems)
 
@@ -643,5 +644,103 @@ theorem C19_genrun_answer_distinct (hw : List UInt8) (c : Nat) (sec : Int) (nsec
 example : (genRun [1, 2, 3, 4, 5, 6] 0xffffffff [(1700000000, 5), (1700000000, 5), (1700000000, 5)]).Pairwise (· ≠ ·) :=
   C19_timeuuid_unique_if_clock_advances _ _ _ (by intro i j hi hj hij _; simp at hj; omega)
 example : steppedClock 1700000000 999999950 2 100 5 = (1700000001, 150) := by decide
+
+/-! ### concurrent callers as a small-step machine (`Model/UuidConc.lean`): ALL interleavings
+
+The paragraph above ("any schedule of any number of concurrent callers is a run `genRun hw c readings`") is now a
+theorem about a machine whose actions are the two steps of `TimeUUID()` per goroutine — `now g` (the reading) and
+`inc g` (the atomic increment; everything after it is goroutine-local and pure) — plus the environment setting
+the wall clock to anything.  A schedule is an arbitrary `List Act`. -/
+
+/-- LINEARIZATION, every schedule: the UUIDs returned, in the order of the increments, are the generator run
+    over the readings the callers held, in that order; the counter has moved by exactly the number of returns.
+    Hence every theorem about `genRun` (`C19_timeuuid_dup_iff`, `…_unique_if_clock_advances`, `C19_genrun_*`)
+    speaks about every interleaving of any number of goroutines. -/
+theorem C19_conc_linearizes (hw : List UInt8) (c : Nat) (t : Int × Nat) (acts : List Act) :
+    (concRun hw (concInit c t) acts).out.map (·.uuid) =
+      genRun hw c ((concRun hw (concInit c t) acts).out.map (·.reading)) ∧
+    (c < 2 ^ 32 → (concRun hw (concInit c t) acts).clockSeq = genCtr c (concRun hw (concInit c t) acts).out.length) := by
+  refine ⟨(conc_is_genRun hw (concInit c t) rfl acts).1, fun hc => ?_⟩
+  have := (conc_counter hw (concInit c t) hc acts).2
+  simpa [concInit] using this
+
+/-- every schedule in which at most 16384 calls return — whatever the number of goroutines, the interleaving of
+    readings and increments, and the behaviour of the wall clock — returns pairwise distinct UUIDs -/
+theorem C19_conc_unique_upto_16384 (hw : List UInt8) (c : Nat) (t : Int × Nat) (acts : List Act)
+    (h : (concRun hw (concInit c t) acts).out.length ≤ 16384) :
+    ((concRun hw (concInit c t) acts).out.map (·.uuid)).Pairwise (· ≠ ·) := by
+  rw [(C19_conc_linearizes hw c t acts).1, genRun_eq_gens]
+  exact C19_unique_partial hw c _ (by simpa using h)
+
+/-- every schedule of ANY length: two returned calls got the same UUID exactly when the readings they HELD have
+    the same 100 ns tick and they are a multiple of 16384 increments apart; in particular the results are
+    pairwise distinct whenever no two calls holding the same tick are 16384 or more increments apart -/
+theorem C19_conc_dup_iff (hw : List UInt8) (c : Nat) (t : Int × Nat) (acts : List Act) (i j : Nat)
+    (hi : i < ((concRun hw (concInit c t) acts).out.map (·.reading)).length)
+    (hj : j < ((concRun hw (concInit c t) acts).out.map (·.reading)).length) :
+    ((concRun hw (concInit c t) acts).out.map (·.uuid))[i]? = ((concRun hw (concInit c t) acts).out.map (·.uuid))[j]? ↔
+    tick ((concRun hw (concInit c t) acts).out.map (·.reading))[i] =
+      tick ((concRun hw (concInit c t) acts).out.map (·.reading))[j] ∧ i % 16384 = j % 16384 := by
+  rw [(C19_conc_linearizes hw c t acts).1]
+  generalize (concRun hw (concInit c t) acts).out.map (·.reading) = rs at hi hj
+  rw [List.getElem?_eq_getElem (by rw [genRun_length]; exact hi),
+    List.getElem?_eq_getElem (by rw [genRun_length]; exact hj), Option.some.injEq]
+  exact C19_timeuuid_dup_iff hw c rs i j hi hj
+
+theorem C19_conc_unique_if_clock_advances (hw : List UInt8) (c : Nat) (t : Int × Nat) (acts : List Act)
+    (h : ∀ i j (hi : i < ((concRun hw (concInit c t) acts).out.map (·.reading)).length)
+      (hj : j < ((concRun hw (concInit c t) acts).out.map (·.reading)).length), i < j →
+      tick ((concRun hw (concInit c t) acts).out.map (·.reading))[i] =
+        tick ((concRun hw (concInit c t) acts).out.map (·.reading))[j] → j - i < 16384) :
+    ((concRun hw (concInit c t) acts).out.map (·.uuid)).Pairwise (· ≠ ·) := by
+  rw [(C19_conc_linearizes hw c t acts).1]
+  exact C19_timeuuid_unique_if_clock_advances hw c _ h
+
+/-- KF-C19-1 (b) as a theorem about schedules, from ANY state: goroutines `g` and `g'` are both between their
+    reading and their increment and hold readings of the same tick; `g'` increments; then the others do anything
+    (`mid`: no step of `g`; the wall clock may advance as it likes; exactly 16383 further calls return); then `g`
+    increments — and is handed the very UUID `g'` got. -/
+theorem C19_conc_dup_descheduled (hw : List UInt8) (s : Conc) (g g' : Nat) (r r' : Int × Nat) (mid : List Act)
+    (hne : g' ≠ g) (hg : heldOf s.held g = some r) (hg' : heldOf s.held g' = some r')
+    (ht : tick r = tick r') (hmid : ∀ a ∈ mid, actOf a ≠ some g)
+    (hn : (concRun hw (concStep hw s (.inc g')) mid).out.length = s.out.length + 1 + 16383) :
+    ∃ u, (concRun hw s (.inc g' :: mid ++ [.inc g])).out[s.out.length]? = some ⟨g', r', u⟩ ∧
+         (concRun hw s (.inc g' :: mid ++ [.inc g])).out[s.out.length + 16384]? = some ⟨g, r, u⟩ :=
+  conc_dup_descheduled hw s g g' r r' mid hne hg hg' ht hmid hn
+
+/-- counterexample to "pairwise distinct for any number of concurrent generators" in which the wall clock moves
+    on by a full tick before EVERY call that starts after the first two readings (no clock standing still, no
+    fixed time argument): goroutines 0 and 1 read the clock; 1 increments; 1 makes 16383 further calls, each at a
+    later tick; 0 increments — results 0 and 16384 are the same UUID, for every node and counter value. -/
+theorem C19_cex_conc_advancing_clock (hw : List UInt8) (c : Nat) :
+    ∃ u, (concRun hw (concInit c (1700000000, 0))
+            ([.now 0, .now 1, .inc 1] ++ callsOf 1 (fun i => unixNorm 1700000000 ((i + 1) * 100)) 16383 ++ [.inc 0])).out[0]?
+          = some ⟨1, (1700000000, 0), u⟩ ∧
+         (concRun hw (concInit c (1700000000, 0))
+            ([.now 0, .now 1, .inc 1] ++ callsOf 1 (fun i => unixNorm 1700000000 ((i + 1) * 100)) 16383 ++ [.inc 0])).out[16384]?
+          = some ⟨0, (1700000000, 0), u⟩ := by
+  let s : Conc := ⟨c, (1700000000, 0), [(1, (1700000000, 0)), (0, (1700000000, 0))], []⟩
+  have hs : ∀ rest, concRun hw (concInit c (1700000000, 0)) ([.now 0, .now 1, .inc 1] ++ rest) =
+      concRun hw s (.inc 1 :: rest) := fun rest => rfl
+  rw [List.append_assoc, hs]
+  have h1 : heldOf (concStep hw s (.inc 1)).held 1 = none := heldOf_filter_self 1 _
+  have := conc_dup_descheduled hw s 0 1 (1700000000, 0) (1700000000, 0)
+    (callsOf 1 (fun i => unixNorm 1700000000 ((i + 1) * 100)) 16383) (by decide) rfl rfl rfl
+    (callsOf_frame 0 1 (by decide) _ _)
+    (by rw [(conc_calls hw 1 _ 16383 _ h1).1]; rfl)
+  have hl : s.out.length = 0 := rfl
+  rw [hl, Nat.zero_add] at this
+  exact this
+
+/-- the run the native driver executes on long schedules (results accumulated newest-first, reversed at the end)
+    is the machine's run -/
+theorem C19_conc_fast_eq (hw : List UInt8) (s : Conc) (acts : List Act) : concRunFast hw s acts = concRun hw s acts :=
+  concRunFast_eq hw s acts
+
+/-- non-vacuity: a small schedule run through the machine — goroutine 0 is overtaken by goroutine 1 between its
+    reading and its increment, so the readings are NOT in increment order -/
+example : ((concRun [1, 2, 3, 4, 5, 6] (concInit 7 (1700000000, 0))
+    [.now 0, .wall (1700000000, 100), .now 1, .inc 1, .inc 0]).out.map (fun r => (r.g, r.reading))) =
+    [(1, (1700000000, 100)), (0, (1700000000, 0))] := by decide
 
 end C19
